@@ -138,7 +138,8 @@ def gen_case(tp, tier):
                         path, src,
                         XPORT if tp.draw(5) == 0 else None,
                         gen_template(tp), tp.draw(8) == 0,
-                        tp.choice([None] * 10 + ['free', 'disable'])])
+                        tp.choice([None] * 10 + ['free', 'disable',
+                                                 'raise'])])
             nresp += 1
         elif r < 70:
             pk = gen_packet(tp, ctr, used)
@@ -289,6 +290,10 @@ PREDS = {
 
 
 # ------------------------------------------------------------ model
+
+class RespError(Exception):
+    """raised by a responder's function on purpose"""
+
 
 class Resp:
     def __init__(self, rid, kind, path, src, rport, template, oneshot,
@@ -457,6 +462,9 @@ def run_case(case, tape, ctx):
                     robj[rid].free()
                 elif r.selfact == 'disable':
                     robj[rid].disable()
+            if r is not None and r.selfact == 'raise':
+                bump('responder-raised')
+                raise RespError(f'responder {rid}')
         return f
 
     probe = srpd.OscFunc(make_func('probe', 0), '/probe')
@@ -590,11 +598,27 @@ def run_case(case, tape, ctx):
         # the library dispatches the messages of a packet ordered by time
         order = sorted(range(len(msgs)),
                        key=lambda i: msgs[i][0] or 0)
+        # a responder whose function raises ends the dispatch of the packet
+        # there: which of the other responders of that packet still run is
+        # not specified - they may, once each; everything else stays exact
+        # (a freed, disabled or fired one-shot responder never runs)
+        raisers = False
+        for i in order:
+            e_, a_ = reg.expected(msgs[i][1].addr, msgs[i][1].args, src,
+                                  port)
+            for rid in [x for x, _ in e_] + list(a_):
+                if reg.resp[rid].selfact == 'raise':
+                    raisers = True
+        if raisers:
+            bump('packets-with-raising-responder')
         for c in range(copies):
             for i in order:
                 tt, m = msgs[i]
                 args = m.args
                 exp, amb = reg.expected(m.addr, args, src, port)
+                if raisers:
+                    amb = set(amb) | {rid for rid, _ in exp}
+                    exp = []
                 exp_ids = [rid for rid, _ in exp]
                 mine = [g for g in got
                         if g['msg'] and g['msg'][0] == m.addr
@@ -642,10 +666,15 @@ def run_case(case, tape, ctx):
                     check_args(hit, m, tt, src, port, t_send, rid)
                     reg.fired(rid)
                     bump('invocations-checked')
+                room = {}           # label -> invocations it may still take
+                for x in amb:
+                    room[reg.resp[x].label] = room.get(reg.resp[x].label,
+                                                       0) + 1
                 for g in mine:
                     if g.get('_used'):
                         continue
-                    if g['rid'] in {reg.resp[x].label for x in amb}:
+                    if room.get(g['rid'], 0) > 0:
+                        room[g['rid']] -= 1
                         g['_used'] = True
                         bump('ambiguous-spec')
                         reg.fired(g['rid'])
